@@ -474,6 +474,9 @@ func (e *Engine) registerIntrinsics() {
 			}
 			return c.newError(c.sprintfLenient(args[1], args[2].([]Value)), &inner)
 		}
+		in[p+".WithMessage"] = in[p+".Wrap"]
+		in[p+".WithMessagef"] = in[p+".Wrapf"]
+		in[p+".WithStack"] = func(c *PathCtx, fr *frame, args []Value) Value { return args[0] }
 		in[p+".Is"] = errorsIs
 		in[p+".Unwrap"] = func(c *PathCtx, fr *frame, args []Value) Value {
 			return c.errorUnwrap(args[0].(Iface))
@@ -931,6 +934,19 @@ func (c *PathCtx) fmtValue(a Iface, verb byte) *Term {
 			return tIte(v, mkStr("true"), mkStr("false"))
 		case KFloat:
 			return mkStr(strconv.FormatFloat(v.F, 'g', -1, 64))
+		}
+	}
+	// []string prints as [a b c]
+	if sl, ok := a.V.([]Value); ok {
+		if st, ok := a.T.Underlying().(*types.Slice); ok && isString(st.Elem()) {
+			var r *Term = mkStr("[")
+			for i, e := range sl {
+				if i > 0 {
+					r = tConcat(r, mkStr(" "))
+				}
+				r = tConcat(r, e.(*Term))
+			}
+			return tConcat(r, mkStr("]"))
 		}
 	}
 	// error / Stringer: call the method
